@@ -2606,6 +2606,15 @@ fn api_run(out: &mut Out, am: &AModel) {
                 }
                 solve(&am2).map(|(r, _)| r.is_ok()).unwrap_or(false)
             };
+            // second attribution of the same finding: with several integer-lowered rows (some of them
+            // strict) rewriting the literals is not enough (the float lowering of a strict mixed row has
+            // defects of its own); the model solves once the integer-lowered rows over float variables
+            // are REMOVED, i.e. they alone make it infeasible although the witness satisfies them
+            let ex_intlin = ex_intlin || (am.rows.iter().any(|r| matches!(r, ARow::Ex(x) if x.lowering(&mut vec![]) && am.ex_has_float_var(x))) && {
+                let mut am3 = am.clone();
+                am3.rows.retain(|r| !matches!(r, ARow::Ex(x) if x.lowering(&mut vec![]) && am.ex_has_float_var(x)));
+                solve(&am3).map(|(r, _)| r.is_ok()).unwrap_or(false)
+            });
             let tag = if again { "root-lp" } else if ex_intlin { "float-row-lowered-to-intlin" } else if mixed_eq { "float-eq-int-var-rounding" } else if mixed_strict { "mixed-strict-cmp-int-lowered" } else if inexact { "float-eq-inexact-witness" } else { "-" };
             out.fail(l, "C07", tag, "solve() = NoSolution although the witness point satisfies every row with margin".to_string());
         }
